@@ -139,7 +139,7 @@ theorem depfile_parse_total (text : Bytes) : match Depfile.parse text with
     NUL-terminated buffer is in good standing, and from any position in good standing one round of
     `Parser::read` (`readItem`: blank lines, comments, `rule`/`build`/`default`/`include`/
     `subninja`/`pool` statements with all their sub-parsers, bindings, `$`-escapes, continuations)
-    returns an item or a parse error with an offset, leaving the scanner in good standing again;
+    returns an item or a parse error with an offset INSIDE the buffer, leaving the scanner in good standing again;
     every item other than end-of-file consumed at least one byte, so the statement loop ends
     after at most `size` rounds.  The abnormal outcomes of the model — a read outside the buffer,
     `back` before the start, a wrapped line counter, running out of fuel in any of the parser's
@@ -147,14 +147,14 @@ theorem depfile_parse_total (text : Bytes) : match Depfile.parse text with
 theorem manifest_parse_total (text : Bytes) :
     ∃ s0, Scanner.new (text ++ [Scanner.NUL]).toArray = .ok s0 ∧
       ∀ s, Depfile.G (text ++ [Scanner.NUL]).toArray s →
-        Parse.Ok1 (fun it s' => Depfile.G (text ++ [Scanner.NUL]).toArray s' ∧ s.ofs ≤ s'.ofs ∧
+        Parse.Ok1 (text ++ [Scanner.NUL]).toArray.size (fun it s' => Depfile.G (text ++ [Scanner.NUL]).toArray s' ∧ s.ofs ≤ s'.ofs ∧
               ((match it with | .eof => False | _ => True) → s.ofs < s'.ofs))
           (Parse.readItem ((text ++ [Scanner.NUL]).toArray.size + 1) s) ∧
         Depfile.G (text ++ [Scanner.NUL]).toArray s0 :=
   Parse.readItem_total text
 
 /-- What "never abnormal" means: `Ok1 P r` holds only of values and parse errors. -/
-theorem ok1_excludes_abnormal {α : Type} (P : α → Scanner → Prop) (r : Res Unit) : ¬ Parse.Ok1 P (.bad r) :=
+theorem ok1_excludes_abnormal {α : Type} (B : Nat) (P : α → Scanner → Prop) (r : Res Unit) : ¬ Parse.Ok1 B P (.bad r) :=
   fun h => h
 
 /-- The scanner facts everything rests on: a read at a readable position of a well-formed scanner
@@ -183,6 +183,19 @@ theorem load_total (fs : Fs) (main : Bytes) :
   cases hl : loadWith false fs main with
   | ok l => rw [hl] at h; exact h
   | error e => rw [hl] at h; exact h
+
+/-- **... and the diagnostic of a parse error can always be rendered**: every parse error the
+    loader reports (in the main manifest or any included file) carries an offset that lies inside
+    the buffer it was found in — `Diagnosed` records that, carried through every parser function by
+    `Parse.Ok1` — so `format_parse_error` finds its line and produces the excerpt (`format_total`);
+    its "invalid offset when formatting error" panic is unreachable from `load::read`. -/
+theorem parse_errors_are_rendered (fs : Fs) (main : Bytes) (file : Bytes) (msg : String) (ofs : Nat) (view : Res ErrView)
+    (h : load fs main = .error (.parse file msg ofs view)) : ∃ v, view = .ok v ∧ 1 ≤ v.line := by
+  have ht := load_total fs main
+  rw [h] at ht
+  obtain ⟨buf, hle, hv⟩ := ht
+  obtain ⟨v, hfv, hl⟩ := format_total buf ofs hle
+  exact ⟨v, by rw [hv, hfv], hl⟩
 
 /-- `Diagnosed` spelled out: the model's internal error kinds are not among the diagnostics. -/
 theorem diagnosed_excludes_internal (k : String)
